@@ -279,7 +279,8 @@ def accept (a : Acc) (w : List String) (parseSpec : List String → Option SubSp
     | none, _ =>
       match tagNum 'c' t, tagNum 's' s with
       | some _, some i =>
-        if kind == "enter" then
+        if kind == "call" || kind == "returned" then (a, "ok")
+        else if kind == "enter" then
           let c := a.cancs.length
           fin ((a.act (.cEnter c i)).map (fun a' => { a' with cancs := a'.cancs ++ [(c, i)] })) "cancel of a subscription that was never made"
         else if kind == "locked" then
@@ -330,6 +331,7 @@ def accept (a : Acc) (w : List String) (parseSpec : List String → Option SubSp
     match tagNum 'a' t with
     | some i => fin (a.act (.add i)) "added: list changed while the lock is held by others, or subscription id reused"
     | none => (a, "bad-op")
+  | ["ev", _, "hang"] => rej "hang"
   | ["ev", t, "panic"] => if (tagNum 'w' t).isSome || (tagNum 'c' t).isSome then rej "panic: the model never panics" else (a, "bad-op")
   | ["obs", s, feed, cl] =>
     match tagNum 's' s with
